@@ -49,7 +49,7 @@ Proof.
   - change (RevBlk.OWD o :: s0) with ([RevBlk.OWD o] ++ s0). apply okq_app; [apply okq_single; exact I|exact IH].
 Qed.
 
-Lemma hrev_J0 N ram disk L0 : 1 <= N -> 1 <= ram -> HRevBlk.HB ram HRevBlk.MTop 0 (N - 1) L0 ->
+Lemma hrev_J0 N ram disk L0 : 1 <= N -> 0 <= ram -> HRevBlk.HB ram HRevBlk.MTop 0 (N - 1) L0 ->
   exists T, DiskBridge3.J N ram (map injH L0) KHRevolve ram disk T {| ob := ORevF KHRevolve N ram disk (init_r (map injH L0)); started := false |} mon0.
 Proof.
   intros HN Hram HB. set (L := map injH L0).
@@ -58,7 +58,7 @@ Proof.
   { unfold prevop. destruct (rev L0) as [|z r] eqn:E; [|eauto]. apply (f_equal (@rev _)) in E. rewrite rev_involutive in E. contradiction. }
   destruct Hprev as [prev Hprev].
   set (X0 := {| DiskBlk.mx := RevGen.init_x; DiskBlk.dk := [] |}).
-  destruct (HRevBlk.hblk_ok N ram ram Hram HRevBlk.MTop 0 (N - 1) L0 HB [] 0%nat (Some prev) RevGen.init_c X0) as (acts & c' & X' & lastop & HR & HX & HEx).
+  destruct (HRevBlk.hblk_ok N ram ram HRevBlk.MTop 0 (N - 1) L0 HB [] 0%nat (Some prev) RevGen.init_c X0) as (acts & c' & X' & lastop & HR & HX & HEx).
   { unfold HRevBlk.HEntry, X0, DiskBlk.dkeys, HRevBlk.Sset, RevGen.init_c, RevGen.init_x, RevBlk.keys, RevBlk.store_ok, DiskBlk.dk_ok.
     cbn [DiskBlk.mx DiskBlk.dk map RevBlk.n_ RevBlk.r_ RevBlk.snaps RevBlk.fwd RevBlk.wdeps RevBlk.wics RevBlk.endfwd RevBlk.store RevBlk.rr length].
     replace (0 + (N - 1) + 1) with N by lia. rewrite Z.eqb_refl. cbn [negb].
@@ -83,13 +83,24 @@ Proof.
   - exists acts, (cmap c'), X'. unfold L. rewrite map_length, Nat.sub_0_r. cbn [app]. repeat split; auto; try lia.
 Qed.
 
-Theorem hrevolve_run N ram disk uf ub wd rd L k : 1 <= N -> 1 <= ram -> sequence KHRevolve N ram disk uf ub wd rd = Ok L ->
+(* the op list under the whole documented domain: for max_n = 1 the recursion returns the single step at once, whatever the unit counts *)
+Lemma hrev_seq N ram disk uf ub wd rd L : 1 <= N -> 0 <= ram -> (2 <= N -> 1 <= ram) -> sequence KHRevolve N ram disk uf ub wd rd = Ok L ->
+  exists L0, L = map injH L0 /\ HRevBlk.HB ram HRevBlk.MTop 0 (N - 1) L0.
+Proof.
+  intros HN Hram Hram1 HL. change (sequence KHRevolve N ram disk uf ub wd rd) with (hrevolve (N - 1) ram disk wd rd uf ub) in HL.
+  destruct (Z.eq_dec N 1) as [->|HN1].
+  - change (1 - 1) with 0 in *. unfold hrevolve in HL. destruct (get_hopt_table 0 ram disk 0 wd 0 rd ub uf) as [T|]; cbn [bind] in HL; [|discriminate].
+    change (Z.to_nat (4 * 0 + 8)) with 8%nat in HL. cbn [recurse Z.eqb] in HL. injection HL as <-.
+    exists (RevBlk.adj 0). split; [reflexivity|apply HRevBlk.HZ; discriminate].
+  - exact (hrevolve_grammar (N - 1) ram disk wd rd uf ub _ ltac:(lia) ltac:(lia) HL).
+Qed.
+
+Theorem hrevolve_run N ram disk uf ub wd rd L k : 1 <= N -> 0 <= ram -> (2 <= N -> 1 <= ram) -> sequence KHRevolve N ram disk uf ub wd rd = Ok L ->
   exists o0 m ls, run_case (PRev KHRevolve N ram disk uf ub wd rd) (disk_xparams N ram) (repeat Next k) = Ok (o0, m, ls) /\
     no_raise ls /\ DiskBridge3.leftover_or_ok m.
 Proof.
-  intros HN Hram HL.
-  pose proof HL as HL'. change (sequence KHRevolve N ram disk uf ub wd rd) with (hrevolve (N - 1) ram disk wd rd uf ub) in HL'.
-  destruct (hrevolve_grammar (N - 1) ram disk wd rd uf ub _ ltac:(lia) Hram HL') as (L0 & -> & HB).
+  intros HN Hram Hram1 HL.
+  destruct (hrev_seq N ram disk uf ub wd rd L HN Hram Hram1 HL) as (L0 & -> & HB).
   unfold run_case, Sched.construct, RevConv.construct. rewrite HL. cbn [bind].
   destruct (Z.ltb_spec N 1); [lia|]. destruct (Z.ltb_spec ram (Z.min 1 (N - 1))); [lia|]. cbn [bind].
   destruct (hrev_J0 N ram disk L0 HN Hram HB) as [T HJ0].
@@ -100,13 +111,13 @@ Proof.
 Qed.
 Print Assumptions hrevolve_run.
 
-Theorem hrevolve_terminates N ram disk uf ub wd rd L : 1 <= N -> 1 <= ram -> sequence KHRevolve N ram disk uf ub wd rd = Ok L ->
+Theorem hrevolve_terminates N ram disk uf ub wd rd L : 1 <= N -> 0 <= ram -> (2 <= N -> 1 <= ram) -> sequence KHRevolve N ram disk uf ub wd rd = Ok L ->
   exists K, forall k, (K <= k)%nat ->
   let '(s', m, ls) := run_ops (disk_xparams N ram) {| ob := ORevF KHRevolve N ram disk (init_r L); started := false |} mon0 (repeat Next k) in
   no_raise ls /\ DiskBridge3.leftover_or_ok m /\ is_exhausted s' = true.
 Proof.
-  intros HN Hram HL. change (sequence KHRevolve N ram disk uf ub wd rd) with (hrevolve (N - 1) ram disk wd rd uf ub) in HL.
-  destruct (hrevolve_grammar (N - 1) ram disk wd rd uf ub _ ltac:(lia) Hram HL) as (L0 & -> & HB).
+  intros HN Hram Hram1 HL.
+  destruct (hrev_seq N ram disk uf ub wd rd L HN Hram Hram1 HL) as (L0 & -> & HB).
   exists (2 * length L0 + 2)%nat. intros k Hk.
   destruct (hrev_J0 N ram disk L0 HN Hram HB) as [T HJ0].
   pose proof (DiskBridge3.run_nexts2 N ram ltac:(lia) (map injH L0) KHRevolve ram disk T k _ _ HJ0) as Hrun.
